@@ -339,6 +339,9 @@ func Generate(p Profile, n int, seed int64) []Script {
 				sc.Default, sc.DefBt = true, true
 			case i%32 == 7:
 				planned = g.merged(rng)
+			case i%32 == 15:
+				planned = g.sharedbt(rng)
+				sc.Default = true
 			case i%16 == 15:
 				planned = g.lookalike(rng)
 			case i%8 == 3:
@@ -708,6 +711,67 @@ func (g *gen) btonly(rng *rand.Rand) []Step {
 		{Kind: "update", Src: "s1", Rules: []Rule{mk(id, "s1", []Tok{lit(a)}, second, onlyGet)}},
 		{Kind: "update", Src: "s1", Rules: []Rule{mk(id, "s1", []Tok{lit(a)}, first, onlyGet)}},
 	}
+}
+
+// sharedbt: two rules of one rule set at the same path expression (told apart by their methods) whose
+// backtracking settings differ, under a covering wildcard of another source. Then a version arrives that
+// differs from the loaded one by nothing but the absence of one of the two (and later the full version
+// again): what holds at the shared expression must be what a fresh load of the remaining rules gives.
+func (g *gen) sharedbt(rng *rand.Rand) []Step {
+	a := g.pick(g.lits)
+	lit := func(v string) Tok { return Tok{T: "lit", V: v} }
+	mk := func(id, src string, e []Tok, bt string, methods []Method) Rule {
+		return Rule{ID: id, Src: src, Methods: methods, Hosts: []Matcher{},
+			Routes: []Route{{Expr: e, Params: []Matcher{}}}, BtSet: bt, Bt: bt == "true"}
+	}
+
+	var parent []Tok
+	if rng.Intn(2) == 0 {
+		parent = []Tok{lit(g.pick(g.lits))}
+	}
+
+	at := func(t Tok) []Tok { return append(append([]Tok{}, parent...), t) }
+
+	g.nid += 3
+	bt1, bt2 := "false", "true"
+
+	if rng.Intn(2) == 0 {
+		bt1, bt2 = bt2, bt1
+	}
+
+	r1 := mk(fmt.Sprintf("s1-r%d", g.nid-2), "s1", at(lit(a)), bt1, []Method{{M: "GET"}})
+	r2 := mk(fmt.Sprintf("s1-r%d", g.nid-1), "s1", at(lit(a)), bt2, []Method{{M: "PUT"}})
+	other := mk(fmt.Sprintf("s1-r%d", g.nid), "s1", at(lit(a+"x")), "unset", []Method{})
+	cover := mk("s3-cover", "s3", at(Tok{T: pick2(rng, "one", "free"), N: "x"}), "unset", []Method{})
+
+	full := []Rule{r1, r2}
+	if rng.Intn(2) == 0 {
+		full = []Rule{r1, r2, other}
+	}
+
+	less := []Rule{r1}
+	if rng.Intn(2) == 0 {
+		less = []Rule{r2}
+	}
+
+	if len(full) == 3 {
+		less = append(less, other)
+	}
+
+	steps := []Step{
+		{Kind: "add", Src: "s3", Rules: []Rule{cover}},
+		{Kind: "add", Src: "s1", Rules: full},
+	}
+	if rng.Intn(2) == 0 {
+		steps[0], steps[1] = steps[1], steps[0]
+	}
+
+	steps = append(steps, Step{Kind: "update", Src: "s1", Rules: less})
+	if rng.Intn(2) == 0 {
+		steps = append(steps, Step{Kind: "update", Src: "s1", Rules: full})
+	}
+
+	return steps
 }
 
 // merged: two literals of which one is a byte prefix of the other ("foo", "foobar") under one parent, the
